@@ -1175,6 +1175,10 @@ class C15Monitor(Monitor):
                 tr = json.load(fp)
         except FileNotFoundError:
             f.fail('C15.e', 'trace=True but no trace file was exported', 'no_trace')
+        except ValueError as ex:
+            f.fail('C15.e', f'the exported trace file is not valid JSON: {ex}', 'trace_unreadable')
+        if not isinstance(tr, dict):
+            f.fail('C15.e', f'the exported trace is a {type(tr).__name__}, not a mapping index -> event', 'trace_shape')
         got = [tr[str(i)] for i in range(len(tr))] if all(str(i) in tr for i in range(len(tr))) else None
         if got is None:
             f.fail('C15.e', f'trace keys are not 0..{len(tr) - 1}', 'trace_keys')
